@@ -322,6 +322,21 @@ func (g *TxGen) Gen(t *rapid.T) *TxDesc {
 		d.Mutated, d.ExpectAuthOK = "truncated", false
 		return d
 	}
+	if strings.Contains(g.Profile, "debond") && (kind == "escrow" || kind == "reclaim") && rapid.IntRange(0, 2).Draw(t, "debondChain") == 0 {
+		// chains of delegations: an escrow account that itself delegates to another escrow account, so that one account
+		// is the escrow of some debonding delegations and the delegator of others maturing at the same transition
+		var ents []*Actor
+		for _, x := range g.Actors {
+			if x.Entity != nil {
+				ents = append(ents, x)
+			}
+		}
+		if len(ents) > 0 {
+			a = ents[rapid.IntRange(0, len(ents)-1).Draw(t, "debondChainSigner")]
+			acct = g.V.Account(a.Addr)
+			bal = &acct.General.Balance
+		}
+	}
 	if a.Entity == g.W.Entities[0] && (kind == "reclaim" || kind == "deregister") {
 		// The anchor validator entity never reclaims its stake or deregisters: keeps the documented
 		// precondition of C10 (enough stake-eligible validators remain) true by construction.
